@@ -565,7 +565,22 @@ func familyCollision(rng *vh.RNG) {
 			}
 			return out
 		}
-		checkBuilt(s, [][][]byte{{b}, pad(c.n/2 + 1), pad(3), {a, b}}, !cfg.Search, "collision")
+		checkBuilt(s, [][][]byte{{b}, pad(c.n/2 + 1), pad(3), {a, b}, {b, a}}, !cfg.Search, "collision")
+		// the same with the roles swapped (b a member, a only queried): whichever of the two hashed values is
+		// the smaller one, one of the two filters has the member as the LARGER of a pair of queried values that
+		// agree in their low 32 bits
+		s2 := spec{P: c.p, M: c.m, Key: key, Data: append([][]byte{b}, s.Data[1:]...)}
+		va := gref.Value(key, F, a)
+		ok := true
+		for _, it := range s2.Data[1:] {
+			if gref.Value(key, F, it) == va {
+				ok = false
+			}
+		}
+		if ok {
+			rep.Count("collision2^32", fmt.Sprintf("cs%d", ci), true)
+			checkBuilt(s2, [][][]byte{{a}, {a, b}, {b, a}, append(pad(3), a)}, !cfg.Search && ci == 0, "collision")
+		}
 	}
 }
 
@@ -641,6 +656,219 @@ func familyHostile(rng *vh.RNG) {
 		}
 		addQueryCase(n, p, m, data, key, qs, a, "hostile")
 		cases.Add(fmt.Sprintf("Stream %d %s", p, vh.CoqBytes(data)), map[string]interface{}{"op": "model-internal: bstream machine reader vs bit-list reader", "P": p, "bytes": vh.Hex(data)})
+	}
+}
+
+// long unary runs: quotients crossing 2^8 and 2^16 (and the exact boundaries 255/256/257, 65535/65536/65537
+// with P = 0, N = 1, found by scanning items), so that a narrow quotient counter in the writer or the reader shows
+func familyLongRun(rng *vh.RNG) {
+	r := rng.Fork("longrun")
+	type lc struct {
+		p uint8
+		q uint64 // M = q << p: the quotient of a single value is uniform in [0, q)
+	}
+	list := []lc{{0, 300}, {3, 520}, {0, 70000}, {1, 140000}, {5, 200000}, {0, 66000}}
+	if cfg.Thorough() || cfg.Search {
+		list = append(list, lc{8, 300000}, lc{0, 1 << 20}, lc{19, 70000}, lc{32, 66000})
+	}
+	maxQ := func(s spec) uint64 {
+		vals := gref.Values(s.Key, gref.Modulus(uint64(len(s.Data)), s.M), s.Data)
+		var last, mq uint64
+		for _, v := range vals {
+			if q := (v - last) >> s.P; q > mq {
+				mq = q
+			}
+			last = v
+		}
+		return mq
+	}
+	note := func(s spec) {
+		mq := maxQ(s)
+		switch {
+		case mq >= 1<<16:
+			rep.Histogram["longrun:q>=2^16"]++
+		case mq >= 1<<8:
+			rep.Histogram["longrun:q>=2^8"]++
+		default:
+			rep.Histogram["longrun:q<2^8"]++
+		}
+		rep.Count("longrun", fmt.Sprintf("l%d/%d/%x", s.P, s.M, s.Key[:4]), mq >= 1<<8)
+	}
+	for li, c := range list {
+		for _, n := range []int{1, 2, 3} {
+			for rep2 := 0; rep2 < cfg.Scale(2, 6); rep2++ {
+				s := spec{P: c.p, M: c.q<<c.p + uint64(r.Intn(3)), Key: randKey(r)}
+				for i := 0; i < n; i++ {
+					s.Data = append(s.Data, randItem(r))
+				}
+				note(s)
+				// Coq: the two short ones, and one with a run beyond 2^16
+				corr := !cfg.Search && rep2 == 0 && (li < 2 && n == 2 || li == 2 && n == 1)
+				checkBuilt(s, queriesFor(r, s.Data, true), corr, "longrun")
+			}
+		}
+	}
+	// exact boundaries: P = 0, N = 1, so the quotient is the hashed value itself
+	for _, m := range []uint64{300, 70000} {
+		targets := []uint64{255, 256, 257}
+		if m > 1<<16 {
+			targets = []uint64{65535, 65536, 65537}
+		}
+		key := randKey(r)
+		found := map[uint64][]byte{}
+		for t := 0; t < 3000000 && len(found) < len(targets); t++ {
+			it := gref.LE64(r.U64())
+			v := gref.Value(key, m, it)
+			for _, tg := range targets {
+				if v == tg && found[tg] == nil {
+					found[tg] = it
+				}
+			}
+		}
+		for _, tg := range targets {
+			it := found[tg]
+			if it == nil {
+				rep.Extra[fmt.Sprintf("longrun_boundary_not_found_%d", tg)] = true
+				continue
+			}
+			rep.Histogram[fmt.Sprintf("longrun:q=%d", tg)]++
+			s := spec{P: 0, M: m, Key: key, Data: [][]byte{it}}
+			note(s)
+			non := append([]byte{0xEE}, r.Bytes(9)...)
+			checkBuilt(s, [][][]byte{{it}, {non}, {non, it}}, !cfg.Search && tg <= 257, "longrun")
+		}
+	}
+}
+
+// state left over between calls: filters of the same shape (same N, P, M, byte length) but different
+// content, queried alternately; every member must still match through every form, every time
+func familyInterleave(rng *vh.RNG) {
+	r := rng.Fork("interleave")
+	for i := 0; i < cfg.Scale(25, 120); i++ {
+		p := uint8(r.Intn(21))
+		if i%5 == 0 {
+			p = uint8(r.Intn(33))
+		}
+		n := 1 + r.Intn(6)
+		m := uint64(1)<<p + uint64(r.Intn(4))
+		if i%4 == 0 {
+			p, m = 19, 784931
+		}
+		mk := func() spec {
+			s := spec{P: p, M: m, Key: randKey(r)}
+			for k := 0; k < n; k++ {
+				s.Data = append(s.Data, append([]byte{byte(k)}, r.Bytes(1+r.Intn(12))...))
+			}
+			return s
+		}
+		size := func(s spec) int {
+			f, err := gcs.BuildGCSFilter(s.P, s.M, s.Key, s.Data)
+			if err != nil {
+				return -1
+			}
+			b, _ := f.Bytes()
+			return len(b)
+		}
+		a := mk()
+		la := size(a)
+		var group []spec
+		group = append(group, a)
+		for t := 0; t < 60 && len(group) < 3; t++ {
+			b := mk()
+			if i%2 == 0 {
+				b.Key = a.Key // same key, different items
+			}
+			if size(b) == la {
+				group = append(group, b)
+			}
+		}
+		rep.Count("interleave", fmt.Sprintf("i%d/%d/%d/%x", p, m, n, a.Key[:4]), len(group) > 1)
+		rep.Histogram[fmt.Sprintf("interleave:group=%d", len(group))]++
+		// A B (C) A B ...: each pass queries the members and a few foreign items (members of the others)
+		for gi := range group {
+			group[gi].Gen = fmt.Sprintf("interleave group %d, filter %d of %d of the same shape, queried alternately (stateful: re-run the family with the recorded seed); items=%v", i, gi, len(group), hexItems(group[gi].Data))
+		}
+		for pass := 0; pass < 2; pass++ {
+			for gi, s := range group {
+				var foreign [][]byte
+				for gj, o := range group {
+					if gj != gi {
+						foreign = append(foreign, o.Data...)
+					}
+				}
+				lists := [][][]byte{s.Data}
+				if len(foreign) > 0 {
+					lists = append(lists, foreign, append(append([][]byte{}, foreign...), s.Data[0]))
+				}
+				checkBuilt(s, lists, false, "interleave")
+			}
+		}
+	}
+}
+
+// valid encodings cut at every byte length (the last code straddles or touches the end of the stream for
+// every alignment of P), with the true and an excessive N: EOF rules of the bit reader on the real code
+// vs the model (correspondence), plus the hostile-input monitors
+func familyTruncated(rng *vh.RNG) {
+	r := rng.Fork("truncated")
+	ps := []uint8{0, 1, 7, 8, 9, 15, 16, 17, 24, 25, 31, 32}
+	idx := 0
+	for _, p := range ps {
+		m := uint64(1)<<p + 3
+		key := randKey(r)
+		n := 3 + r.Intn(3)
+		var items [][]byte
+		for k := 0; k < n; k++ {
+			items = append(items, randItem(r))
+		}
+		full, err := gcs.BuildGCSFilter(p, m, key, items)
+		if err != nil {
+			continue
+		}
+		fb, _ := full.Bytes()
+		for cut := 0; cut <= len(fb); cut++ {
+			for _, claimed := range []uint32{uint32(n), uint32(n) + 4} {
+				idx++
+				data := append([]byte{}, fb[:cut]...)
+				f, err := gcs.FromBytes(claimed, p, m, data)
+				if err != nil {
+					rep.Violate("C13:hostile:frombytes", "FromBytes failed on admissible parameters", map[string]interface{}{"N": claimed, "P": p, "M": m, "bytes": vh.Hex(data)})
+					continue
+				}
+				qs := items
+				if idx%2 == 0 {
+					qs = items[:1+r.Intn(len(items))]
+				}
+				a := queryAll(f, key, qs, true)
+				rep.Count("truncated", fmt.Sprintf("t%d/%d/%x", p, claimed, data), cut > 0 && cut < len(fb))
+				if a.err != "" {
+					rep.Violate("C13:hostile:panic", "a query on a deserialised filter failed or panicked", map[string]interface{}{"N": claimed, "P": p, "M": m, "bytes": vh.Hex(data), "queries": hexItems(qs), "error": a.err})
+					continue
+				}
+				// the uncut stream with the true N is the built filter: every item must match
+				if cut == len(fb) && claimed == uint32(n) {
+					for i := range qs {
+						if !a.single[i] {
+							rep.Violate("C13:member:missed", "a member is not matched after Bytes()/FromBytes", map[string]interface{}{"N": claimed, "P": p, "M": strconv.FormatUint(m, 10), "key": vh.Hex(key[:]), "items": hexItems(items), "member": hex.EncodeToString(qs[i])})
+						}
+					}
+				}
+				wantAny := a.zip
+				if len(qs) >= int(claimed/2) {
+					wantAny = a.hash
+				}
+				if a.any != wantAny {
+					rep.Violate("C13:any:dispatch", "MatchAny did not return the answer of the strategy its documented rule selects (hash when len(query) >= N/2, zip otherwise)",
+						map[string]interface{}{"N": claimed, "P": p, "M": m, "bytes": vh.Hex(data), "key": vh.Hex(key[:]), "queries": hexItems(qs), "ZipMatchAny": a.zip, "HashMatchAny": a.hash, "MatchAny": a.any})
+				}
+				if !cfg.Search && (cfg.Thorough() || idx%3 == 0) {
+					addQueryCase(claimed, p, m, data, key, qs, a, "truncated")
+					if idx%6 == 0 {
+						cases.Add(fmt.Sprintf("Stream %d %s", p, vh.CoqBytes(data)), map[string]interface{}{"op": "model-internal: bstream machine reader vs bit-list reader", "P": p, "bytes": vh.Hex(data)})
+					}
+				}
+			}
+		}
 	}
 }
 
@@ -752,10 +980,10 @@ func familyAlloc(rng *vh.RNG) {
 		body []byte
 	}
 	probes := []probe{
-		{19, 0xfffffffe, []byte{0xff, 0x00, 0x00}},  // fe feffffff ff 00 00 : the repaired defect (N = 2^32-2)
-		{19, 0xffffffff, []byte{0x00, 0x00}},        // N = 2^32-1
-		{0, 0xffffffff, []byte{0xaa, 0x55, 0x00}},   // P = 0: at most 24 values
-		{32, 50000000, r.Bytes(40)},                 // 5*10^7 claimed, 40 bytes
+		{19, 0xfffffffe, []byte{0xff, 0x00, 0x00}}, // fe feffffff ff 00 00 : the repaired defect (N = 2^32-2)
+		{19, 0xffffffff, []byte{0x00, 0x00}},       // N = 2^32-1
+		{0, 0xffffffff, []byte{0xaa, 0x55, 0x00}},  // P = 0: at most 24 values
+		{32, 50000000, r.Bytes(40)},                // 5*10^7 claimed, 40 bytes
 		{5, 3000000, r.Bytes(1 + r.Intn(64))},
 	}
 	for i := 0; i < cfg.Scale(2, 10); i++ {
@@ -864,6 +1092,8 @@ func runReplay(path string) {
 		rng := vh.NewRNG(cfg.Seed)
 		familyBig(rng)
 		familyCollision(rng)
+		familyLongRun(rng)
+		familyInterleave(rng)
 		return
 	}
 	var qs [][]byte
@@ -900,8 +1130,11 @@ func main() {
 		familyBig(rng)
 		familyCollision(rng)
 		familyAlloc(rng)
+		familyLongRun(rng)
+		familyInterleave(rng)
 		if !cfg.Search {
 			familyHostile(rng)
+			familyTruncated(rng)
 			familyPrimitives(rng)
 		}
 	}
